@@ -24,7 +24,7 @@ def gen_history(rng, n):
             kind = "int" if nfr.denominator == 1 else "float"
             # numerically equal ratios of different types (12, 12.0, Decimal(12)) declared for different pairs must not share anything
             if rng.random() < 0.35: kind = rng.choice(["float", "dec"])
-            ops.append(["equals", i, e, [kind, str(nfr.numerator), str(nfr.denominator)], j, e])
+            ops.append(["equals", i, e, [kind, str(nfr.numerator), str(nfr.denominator)], j, e] + (["module"] if rng.random() < 0.35 else []))   # conversions.equate called directly
         else:
             i, j = rng.randrange(nu), rng.randrange(nu)
             if dims[i] != dims[j]: continue
@@ -306,6 +306,30 @@ Proof. vm_compute. reflexivity. Qed.
         else:
             c.violation("history-dependent:operand-order-unexplained", what, repl)
     c.cov["operand_order_pairs"] = len(opairs); c.cov["operand_order_dependent"] = nord
+    # ---------------- a REFUSED conversion in between (different dimensions: refused before any planning), then a query whose target is built
+    # with its factors in the other order: refusing may not leave anything behind (such as units built to word the error message)
+    U_ = lambda *fs: [[None, n_, e_] for n_, e_ in fs]
+    def q(a, b, m=("int", "1", "1")): return {"op": "in_unit", "a": {"m": list(m), "u": a}, "b": b}
+    rdefine = [["vfpace", [[1, 1]]], ["vfspan", [[1, 1]]], ["vfell", [[1, 1]]], ["vfrod", [[1, 1]]], ["vfbeat", [[2, 1]]], ["vfbar", [[2, 1]]]]
+    rdecls = [[U_(("vfell", 1)), ["int", "2", "1"], U_(("vfpace", 1))], [U_(("vfrod", 1)), ["int", "3", "1"], U_(("vfspan", 1))], [U_(("vfbar", 1)), ["int", "4", "1"], U_(("vfbeat", 1))]]
+    # (the refused operands are built so that no intermediate product of theirs is an operand of a final query: span, span/beat, (span/beat)*pace ...;
+    #  building the SAME unit with its factors in another order is the recorded factor-order finding and is not what this scenario is about)
+    refused = [q(U_(("vfspan", 1), ("vfbeat", -1), ("vfpace", 1)), U_(("vfpace", 1), ("vfbeat", 1))),
+               q(U_(("vfbeat", -2), ("vfspan", 2), ("vfpace", 1)), U_(("vfbeat", 1))),
+               q(U_(("vfbeat", 1), ("vfspan", -1), ("vfpace", -1)), U_(("vfbeat", 2))),
+               {"op": "add", "a": {"m": ["int", "1", "1"], "u": U_(("vfspan", 1), ("vfbeat", -1), ("vfpace", 1))}, "b": {"m": ["int", "1", "1"], "u": U_(("vfbeat", 1))}}]
+    finals = [q(U_(("vfell", 1), ("vfrod", 1)), U_(("vfpace", 1), ("vfspan", 1))), q(U_(("vfrod", 1), ("vfell", 1)), U_(("vfpace", 1), ("vfspan", 1))),
+              q(U_(("vfell", -1), ("vfrod", -1)), U_(("vfpace", -1), ("vfspan", -1))), q(U_(("vfell", 1), ("vfrod", 2)), U_(("vfpace", 1), ("vfspan", 2)))]
+    for fq in finals:
+        hres = impl("convsys_worker.py", {"systems": False, "define": rdefine, "decls": rdecls, "cases": refused + [fq]})["results"]
+        fres = impl("convsys_worker.py", {"systems": False, "define": rdefine, "decls": rdecls, "cases": [fq]})["results"][-1]
+        c.count(["refused-then-query", fq], nontrivial=True)
+        outcome = lambda r: r.get("m") or r.get("err") or r.get("setup_err")
+        if any("err" not in r_ and "setup_err" not in r_ for r_ in hres[:len(refused)]):
+            c.violation("refused-conversion-answers", f"a conversion across dimensions returned a value: {[outcome(r_) for r_ in hres[:len(refused)]]}", {"define": rdefine, "decls": rdecls, "queries": refused})
+        if outcome(hres[-1]) != outcome(fres):
+            c.violation("history-dependent:after-refused-conversion", f"{fq} answers {outcome(hres[-1])} after conversions across dimensions were refused and {outcome(fres)} in a fresh process",
+                        {"define": rdefine, "decls": rdecls, "in_between": refused, "final_query": fq, "interleaved": outcome(hres[-1]), "fresh": outcome(fres)})
     # ---------------- plain conversions after compound ones through the same units
     # in between: rates, areal and cubic expressions over the volume / area units (conversions that go through the planner's factor
     # replacement and sort the alternatives of each unit); final: every plain conversion among those units.  Repeating a conversion
